@@ -22,6 +22,10 @@ def chain(b, f, calls):
 def fs_start(f, k):
     return "Fields::<%s>::%s()" % ("MetaForm" if f == "M" else "PortableForm", k)
 
+# closures may ignore the builder they are handed and return a FRESH one (its typestate is then inferred from what
+# the caller demands): FRESH[0] renders them that way
+FRESH = [False]
+
 def call(b, f, c):
     m = c["m"]
     if b == "FB":
@@ -30,12 +34,14 @@ def call(b, f, c):
         if m == "compact": return ".compact::<%s>()" % c["t"]
         if m == "type_name": return ".type_name(%s)" % s_arg(f, c["tn"])
     if b == "FS" and m == "field":
+        if FRESH[0]: return ".%s(|_| FieldBuilder::new()%s)" % ("field" if f == "M" else "field_portable", chain("FB", f, c["seq"]))
         return ".%s(|f| f%s)" % ("field" if f == "M" else "field_portable", chain("FB", f, c["seq"]))
     if b == "VB":
         if m == "index": return ".index(%d)" % c["i"]
         if m == "discriminant": return ".discriminant(%d)" % c["d"]
         if m == "fields": return ".fields(%s%s)" % (fs_start(f, c["k"]), chain("FS", f, c["seq"]))
     if b == "VS":
+        if m == "variant" and FRESH[0]: return ".variant(%s, |_| VariantBuilder::new(%s)%s)" % (s_arg(f, c["name"]), s_arg(f, c["name"]), chain("VB", f, c["seq"]))
         if m == "variant": return ".variant(%s, |v| v%s)" % (s_arg(f, c["name"]), chain("VB", f, c["seq"]))
         if m == "variant_unit": return ".variant_unit(%s, %d)" % (s_arg(f, c["name"]), c["i"])
     if b == "TB":
@@ -66,6 +72,11 @@ def start(b, f, arg):
     if b == "VB": return "VariantBuilder::<%s>::new(%s)" % (F, s_arg(f, arg))
     if b == "VS": return "Variants::<%s>::new()" % F
     if b == "TB": return "Type::builder()" if f == "M" else "Type::builder_portable()"
+
+def expr_fresh(case, upto=None, extra=None):
+    FRESH[0] = True
+    try: return expr(case, upto, extra)
+    finally: FRESH[0] = False
 
 def expr(case, upto=None, extra=None):
     calls = case["calls"] if upto is None else case["calls"][:upto]
